@@ -50,7 +50,8 @@ def x_prog(ctx, case):
         if name in recorders.OUTCOMES:
             cells_at["cells"] = dict(env.cells)
     log = recorders.Log(hook)
-    run = programs.execute(program, lambda: recorders.ExtRecorder(log), env=env)
+    run = programs.execute(program, lambda: recorders.ExtRecorder(log), env=env,
+                           runner_factory=programs.runner_factory_for(case.get("runner")))
     outs = [e for e in log.events if e.name in recorders.OUTCOMES]
     if len(outs) != 1:
         ctx.count("not-exactly-one-outcome (C01's concern)")
@@ -316,4 +317,10 @@ def run(ctx):
         if ctx.out_of_time():
             break
         prog = progen.random_program(rng, features=FEATURES, p_raise=0.4, max_cleanups=4)
-        ctx.execute("prog", {"prog": _sanitise(prog)})
+        case = {"prog": _sanitise(prog)}
+        r = rng.random()
+        if r < 0.15:
+            case["runner"] = "sync"
+        elif r < 0.3 and not prog.get("decor"):
+            case["runner"] = "async"
+        ctx.execute("prog", case)
